@@ -71,6 +71,11 @@ impl<'b> LuaDocParser<'_, 'b> {
 
     pub fn bump(&mut self) {
         if !is_invalid_kind(self.current_token) {
+            #[cfg(emmyluals_emmylua_analyzer_rust_verif)]
+            crate::verif::rec(|| crate::verif::VerifOp::DocEat {
+                kind: self.current_token,
+                range: self.current_token_range,
+            });
             self.lua_parser.get_events().push(MarkEvent::EatToken {
                 kind: self.current_token,
                 range: self.current_token_range,
@@ -129,6 +134,11 @@ impl<'b> LuaDocParser<'_, 'b> {
     }
 
     fn eat_current_and_lex_next(&mut self) {
+        #[cfg(emmyluals_emmylua_analyzer_rust_verif)]
+        crate::verif::rec(|| crate::verif::VerifOp::DocEat {
+            kind: self.current_token,
+            range: self.current_token_range,
+        });
         self.lua_parser.get_events().push(MarkEvent::EatToken {
             kind: self.current_token,
             range: self.current_token_range,
